@@ -125,18 +125,30 @@ class Run:
         return ex.obligations, rep
 
     def vacuity(self, ex, exits):
+        """Guards against vacuous proofs: the precondition must be satisfiable, and at least one normal
+        exit must not be provably unreachable (a planted `assert False` there must NOT be discharged)."""
+        if getattr(self, "skip_vacuity", False):
+            return {}
         s = z3.Solver()
-        s.set("timeout", 5000)
+        s.set("timeout", 3000)
         s.add(*[z3.simplify(h) for h in ex.entry_state.pc])
         pre = str(s.check())
-        reach = 0
-        for o in exits[:12]:
+        live = dead = 0
+        rets = [o for o in exits if o.status == "return"]
+        for o in rets[:6]:
             s2 = z3.Solver()
-            s2.set("timeout", 3000)
+            s2.set("timeout", 700)
             s2.add(*[z3.simplify(h) for h in o.pc])
-            if str(s2.check()) in ("sat",):
-                reach += 1
-        return {"precondition": pre, "reachable_exits_sat": reach, "exits": len(exits)}
+            if str(s2.check()) == "unsat":
+                dead += 1
+            else:
+                live += 1
+        out = {"precondition": pre, "return_exits": len(rets), "exits_not_refuted_unreachable": live,
+               "exits_proved_unreachable": dead}
+        if pre == "unsat" or (rets and live == 0):
+            self.undecided.append({"obligations": [f"{self.pid}/{ex.cur_fn}/vacuity"],
+                                   "why": "contract is vacuous (contradictory precondition or no reachable normal exit)"})
+        return out
 
     # -- main ----------------------------------------------------------------------------------
     def run(self):
@@ -153,6 +165,37 @@ class Run:
         for extra in self.prop.get("extra", []):
             extra(self)
         self.decide()
+        self.crosscheck()
+
+    def crosscheck(self):
+        """Run-time contract evaluation on the real functions over sampled small inputs (bounded stand-in and
+        sanity guard for the encoder: a clause that fails natively is reported with its input)."""
+        seen = set()
+        budget = self.prop.get("crosscheck_budget", 150 if self.tier == "quick" else 3000)
+        for fspec in self.prop["functions"]:
+            key = (fspec["fn"], fspec.get("contract_key"))
+            if fspec.get("rt_skip") or key in seen:
+                continue
+            seen.add(key)
+            if any(v for v in self.violations if fspec["fn"] in str(v.get("obligations"))):
+                continue
+            spec = self.search_spec(fspec, budget=budget)
+            res = rt_call("crosscheck", spec)
+            if res.get("status") == "ok":
+                self.bounded.append({"what": f"run-time contract of {fspec['fn']} [{fspec.get('contract_key', '')}] on the real function",
+                                     "bound": spec["scope"], "cases": res.get("valid", 0), "generated": res.get("runs", 0)})
+            elif res.get("status") == "mismatch":
+                w = res["fails"][0]
+                rep = {"property": self.pid, "function": fspec["fn"], "obligations": [f"{self.pid}/{fspec['fn']}/runtime-contract"],
+                       "contract_key": fspec.get("contract_key", fspec["fn"]),
+                       "contract_modules": self.prop.get("contract_modules", []), "spec_modules": self.prop.get("spec_modules", []),
+                       "inputs": w["input"], "observed": w["outcome"], "reproduced": True,
+                       "note": "clause violated at run time on the real function"}
+                path = self.write_replay(rep)
+                self.violations.append({"obligations": rep["obligations"], "replay": path, "reproduced": True,
+                                        "failed_clauses": w["outcome"]["failed"]})
+            else:
+                self.notes.append(f"NOTE crosscheck of {fspec['fn']} not run: {str(res.get('why'))[:200]}")
 
     def ledger_names(self):
         led = load_json(LEDGER, {})
